@@ -116,6 +116,18 @@ def _mono_command(draw, mono):
 @st.composite
 def value_command(draw, model, narrays, max_depth, cplx=True, mono=None):
     """one command that puts (or begins) a value at the current position"""
+    if mono == "byref":
+        # histories about append/extend by reference: mostly elements of the given arrays, some None, some lists of them
+        k = draw(st.integers(0, 99))
+        a = draw(st.integers(0, narrays - 1))
+        n = len(model.arrays[a])
+        if k < 65 and n:
+            return ["append", a, draw(st.integers(-n, n - 1))]
+        if k < 85:
+            return ["null"]
+        if model.depth() < max_depth:
+            return ["beginlist"]
+        return ["null"]
     if mono is not None and model.depth() == 0:
         return draw(_mono_command(mono))
     k = draw(st.integers(0, 99))
@@ -147,7 +159,7 @@ def next_command(draw, model, narrays, max_depth, cplx=True, mono=None):
             return ["snapshot"]
         if k < 34 and fr.kind == "root":
             return ["clear"]
-        if k < 38 and narrays and not (mono is not None and fr.kind == "root"):
+        if k < (46 if mono == "byref" else 38) and narrays and not (mono is not None and mono != "byref" and fr.kind == "root"):
             return ["extend", draw(st.integers(0, narrays - 1))]
         return draw(value_command(model, narrays, max_depth, cplx, mono))
     if _needs_value(fr):
@@ -253,7 +265,8 @@ def ab_history(draw, max_steps):
             "initial2": draw(st.sampled_from([1, 2, 3, 8])), "resize2": draw(st.sampled_from([1.1, 1.5, 2.0])),
             "via2": draw(st.sampled_from(["cpp", "capi"])), "fast": draw(st.integers(0, 4)) == 0}
     arrays = []
-    if draw(st.integers(0, 9)) < 4:
+    byref = draw(st.integers(0, 7)) == 0
+    if byref or draw(st.integers(0, 9)) < 4:
         for _ in range(draw(st.integers(1, 2))):
             arrays.append(draw(byref_array()))
     case["arrays"] = arrays
@@ -262,6 +275,8 @@ def ab_history(draw, max_steps):
     cplx = draw(st.integers(0, 3)) == 0      # complex values only in a quarter of the histories (several known findings live there)
     # a quarter of the histories are homogeneous at the top level (see _mono_command)
     mono = draw(st.sampled_from(MONO)) if draw(st.integers(0, 3)) == 0 else None
+    if byref:
+        mono = "byref"
     budget = draw(st.integers(1, max_steps))
     ill_at = draw(st.integers(0, budget)) if draw(st.integers(0, 7 if mono is None else 2)) == 0 else -1
     # half of the ill-nested histories wait for an open tuple/record (wrong tuple index, slot filled twice, value without key)
